@@ -3,7 +3,7 @@
   carries the secret and the counters" – at the level of bytes: the account record, the exported JSON structure,
   and the fields an import reads back from it.  Statements only; proofs in MW/Lemmas/KsCodec*.lean.
 -/
-import MW.Lemmas.KsCodecJson
+import MW.Lemmas.KsCodecSpec
 namespace MW.Props.C04Codec
 open MW MW.Model.KsCodec MW.KsCodecL
 
@@ -79,6 +79,15 @@ theorem export_import_preserves (b : Bucket) (purpose coin i e : Nat) (pub pp : 
 theorem import_refuses_bad_params (k : KeystoreJ) (coin : Nat) (hc : k.coin = coin)
     (ha : k.account = MW.Gen.Keystore.walletUsage) (hl : k.privParams.length ≠ 176) :
     ∃ e, importView k coin = .error e := KsCodecL.import_refuses_bad_params k coin hc ha hl
+
+/-- for today's tables the table-driven account-row and BIP0044-record codecs ARE the format spec, on every input -/
+theorem records_model_eq_spec (t : Nat) (raw bs pub priv : Bytes) :
+    serializeAccountRow t raw = Spec.KsCodec.accountRow t raw ∧
+    Spec.KsCodec.ofExcept (deserializeAccountRow bs) = Spec.KsCodec.readAccountRow bs ∧
+    (8 + pub.length + priv.length < 4294967296 → serializeHDAccountKey pub priv = some (Spec.KsCodec.hdRecord pub priv)) ∧
+    Spec.KsCodec.ofExcept (deserializeHDAccountKey bs) = Spec.KsCodec.readHdRecord bs :=
+  ⟨serializeAccountRow_eq_spec t raw, deserializeAccountRow_eq_spec bs, serializeHDAccountKey_eq_spec pub priv,
+   deserializeHDAccountKey_eq_spec bs⟩
 
 /-! non-vacuity: a complete account bucket, its export, and the import view of the export -/
 def demoParams : Params := ⟨List.replicate 32 7, List.replicate 32 9, 16, 8, 1⟩
